@@ -454,6 +454,52 @@ func Join(A, B *State, live func(Atom) bool, widen bool) *State {
 			J.cong[a] = Cong{m, modpos(ca.R, m)}
 		}
 	}
+	// linear congruences: candidates from both sides (and rewritten through the
+	// definitions of changed atoms), kept when they hold on both sides
+	if !widen || true {
+		var lcc []LinCong
+		addLC := func(l LinCong) {
+			if l.E.Bad || len(l.E.T) == 0 || !liveLin(l.E) {
+				return
+			}
+			for _, o := range lcc {
+				if o.M == l.M && o.E.Equal(l.E) {
+					return
+				}
+			}
+			lcc = append(lcc, l)
+		}
+		for _, side := range []*State{A, B} {
+			for _, l := range side.lc {
+				addLC(l)
+				if widen {
+					continue
+				}
+				for _, x := range knew {
+					d, has := side.def[x]
+					if !has {
+						continue
+					}
+					for _, t := range d.T {
+						if (t.K == 1 || t.K == -1) && l.E.Coef(t.A) != 0 {
+							rest := d.Subst(t.A, Const(0))
+							val := Var(x).Sub(rest).Scale(t.K)
+							addLC(LinCong{l.E.Subst(t.A, val), l.M})
+						}
+					}
+				}
+			}
+		}
+		holds := func(side *State, l LinCong) bool {
+			c := side.CongOfExpr(l.E)
+			return c.ok() && c.M%l.M == 0 && c.R%l.M == 0
+		}
+		for _, l := range lcc {
+			if len(J.lc) < 24 && holds(A, l) && holds(B, l) {
+				J.lc = append(J.lc, l)
+			}
+		}
+	}
 	// non-numeric facts
 	for k, v := range A.nonnil {
 		if v && B.nonnil[k] {
